@@ -13,7 +13,8 @@ unlimited), the opacity of a layer is never tested by truthiness and fades exact
 (C14.i); a group layer is as opaque as what it draws (C14.b).
 Added in round 5: flatten_to_polygons tests the type of each part (C14.j).
 Added in round 6: a colour-keyed source is not opaque (C14.k); the combined source gets every
-attribute the compatibility test compared (C14.l)."""
+attribute the compatibility test compared (C14.l); coverages with different clip flags are not
+equal (C14.m)."""
 import ast
 
 from ..engine import rule, run_property
